@@ -1300,6 +1300,9 @@ class Form:
         if self.cc_in_name:
             alts = [Alt(c, "ok", "", T.COND_NAMES[c]) for c in range(2, 16)]
             self.dims.append(Dim("cc", rng.range(2, 15), alts, 0))
+        elif self.asm_name != "b":
+            # a condition code composed into the id of any instruction but B is invalid input
+            self.dims.append(Dim("idcc", 0, [Alt(c, "bad", "cond-code-in-id", "cc%d" % c) for c in (2, 15)], -1))
         for s in self.slots:
             self.dims += s.dims(self, rng, tier)
         regdims = [d for d in self.dims if (d.key.endswith(".id") or d.key.endswith(".base") or d.key.endswith(".mem.idx") or
@@ -1357,6 +1360,8 @@ class Form:
             fields += o.fields
         name = self.asm_name
         tname = self.text_name
+        if v.get("idcc"):
+            name = "%s.%d" % (self.asm_name, v["idcc"])
         if self.cc_in_name:
             name = "%s.%d" % (self.asm_name, v["cc"])
             tname = "%s.%s" % (self.asm_name, T.COND_NAMES[v["cc"]])
